@@ -237,7 +237,10 @@ class ParseMCNPCell:
         while kw_list:
             elt = kw_list.pop()
             if elt.startswith('imp'):
-                importances[elt] = float(kw_list.pop())
+                # one value per particle type: IMP:N,P=x is IMP:N=x IMP:P=x
+                value = to_float(kw_list.pop())
+                for particle in elt.partition(':')[2].split(','):
+                    importances[particle] = value
                 keywords['importance'] = max(importances.values())
             elif 'fill' in elt:
                 f_bounds, f_univs, f_params = self.parse_fill_kw(elt, kw_list)
